@@ -218,6 +218,14 @@ func solveVC(vc *VC, dir string, quickMs, fullMs int, par chan struct{}) []Resul
 		fmt.Fprintf(os.Stderr, "pass1 %s: %.1fs for %d obligations\n", vc.Fn, secs, len(idx))
 	}
 	k := 0
+	if hasSolverError(out) {
+		// a rejected declaration or assertion silently weakens or empties later
+		// queries: nothing this run answered is used
+		for i := range results {
+			results[i].Detail += "pass 1: solver reported an error: " + truncate(firstError(out), 300) + "\n"
+		}
+		out = ""
+	}
 	for _, line := range strings.Split(out, "\n") {
 		w := firstWord(line)
 		if w == "" {
@@ -328,6 +336,9 @@ func raceSingle(vc *VC, r *Result, file string, ms int, par chan struct{}) {
 					break
 				}
 			}
+			if hasSolverError(out) {
+				w = "" // an answer given after a rejected command is not an answer to this query
+			}
 			ch <- ans{sp.name + "/" + m.String(), w, out, secs, sf}
 		}(solvers[rc.solver], rc.mode)
 	}
@@ -356,6 +367,29 @@ func raceSingle(vc *VC, r *Result, file string, ms int, par chan struct{}) {
 	}
 	r.Status = "unknown"
 	r.Formula = file + ".Qu.smt2"
+}
+
+// hasSolverError: the solver rejected part of the script (parse or sort error).
+func hasSolverError(out string) bool {
+	for _, line := range strings.Split(out, "\n") {
+		l := strings.TrimSpace(line)
+		if strings.HasPrefix(l, "(error") && !strings.Contains(l, "model is not available") {
+			return true
+		}
+		if strings.Contains(l, "Parse Error") {
+			return true
+		}
+	}
+	return false
+}
+
+func firstError(out string) string {
+	for _, line := range strings.Split(out, "\n") {
+		if strings.Contains(line, "(error") || strings.Contains(line, "Parse Error") {
+			return strings.TrimSpace(line)
+		}
+	}
+	return ""
 }
 
 func truncate(s string, n int) string {
